@@ -107,6 +107,7 @@ ErrClass(e) == IF Ok(e) THEN "ok" ELSE e.res
 StateMonitors(e, s2, hv2) ==
   /\ Check(ExclusiveReservation(s2, hv2), "C03", "ExclusiveReservation", e, "")
   /\ Check(OneLiveEntryPerSlate(s2), "C03", "OneLiveEntryPerSlate", e, "")
+  /\ Check(\A w \in Wallets(s2) \ aux.dirty : ReservationHeld(s2, hv2, w), "C03", "ReservationHeld", e, "")
   /\ Check(\A w \in DOMAIN s2.w : \A k \in DOMAIN s2.w[w].outs : s2.w[w].outs[k].v >= 0, "C01", "NonNegative", e, "")
 \* code under test must never panic in these operations
 NoPanic(e) == Check(e.res # "panic", "C06", "NoPanic", e, IF Has(e, "detail") THEN e.detail ELSE "")
